@@ -23,19 +23,19 @@ P = {
  "C06": ("exploration", "rapid-generated embedded profiles (sizes straddling buffer boundaries, chunk permutations, damage classes) with round-trip and model oracles",
          "Round-trip oracle for undamaged profiles in all three containers; (nil,nil) for none; for each damage class a reference model states whether an error is mandatory or a validity predicate applies.",
          "Trusts harness builders and compress/zlib as the deflate reference.", "4/C06"),
- "C07": ("fault_enumeration", "enumeration of every truncation point and every sticky I/O-fault position (five error values) of each seed file under several read schedules, reader types and ways of draining; replay-stream oracle; native fuzzing in thorough",
+ "C07": ("fault_enumeration", "enumeration of every truncation point and every sticky I/O-fault position (seven error values, two of uncomparable types) of each seed file under several read schedules, reader types (standard readers, a pipe, sources positioned past their end) and ways of draining; streaks and chained loads; replay-stream oracle; native fuzzing in thorough",
          "For each seed (repository images, grammar-built and corrupted files) every prefix length and every fault position is enumerated (<= 8 KiB; structural boundaries beyond), across source schedules and the four loaders; the returned stream must yield exactly the delivered bytes then the injected error or EOF, and nothing may panic.",
-         "Faults are sticky (a failed source keeps failing); sources never return (0,nil).", "4/C07"),
+         "Faults are sticky (a failed source keeps failing); a source returns (0,nil) only when the case says so (every n-th read, never twice in a row).", "4/C07"),
  "C08": ("exploration", "metamorphic: outcome under generated read schedules == outcome under all-at-once delivery",
          "Every input (valid, large-profile, damaged, truncated) is loaded under fixed segment sizes 1,2,3,7,8,4095,4096,4097, rapid size lists and data+EOF delivery; the outcome tuple must equal the all-at-once outcome for the four loaders and the ICC reader behind bufio readers of several sizes.",
          "Error text is not compared, only success/error and values.", "4/C08"),
  "C09": ("exploration", "field-matrix boundary values, rapid structure-aware mutation, truncation sweep (+ native fuzzing in thorough) with panic / allocation-bound / watchdog oracles",
          "Every length/count/offset field of every seed x hostile values, rapid multi-operator mutations, every truncation; oracle = no escaping panic, TotalAlloc delta <= A + B*len(input), call returns within a budget. Thorough adds coverage-guided native fuzzing seeded with the same corpus.",
          "Absence over all byte strings is not established; the bound constants are stated in evidence.", "4/C09"),
- "C10": ("exploration", "rapid images (all std types, origins, sub-images, parallelism, in-place) against a Set()-based reference model compared byte-for-byte over the whole parent buffer",
+ "C10": ("exploration", "rapid images (all std types, origins, sub-images, strides, parallelism, in-place, tiles of one canvas) against a Set()-based reference model compared byte-for-byte over the whole parent buffer; fresh-process first-call probes; a soak of small calls with recurrences at wrap distances",
          "Model-based: a clone of the destination parent is updated through the standard library's Set with the per-colour function; the real parent's entire Pix must equal it.",
          "Per-colour functions themselves are C01/C02/C14's business; destination smaller than source is outside the precondition.", "4/C10"),
- "C11": ("exploration", "generated goroutine schedules with repetition (hammer trials), each run in a fresh race-instrumented process; oracle = race detector + agreement with a sequential run",
+ "C11": ("exploration", "generated goroutine schedules (hammer trials, crowds on few processors, walking load storms, one first-use trial per lazy operation and space), each run in a fresh race-instrumented process; oracle = race detector + agreement with a sequential run at parallelism 1",
          "Trial descriptions (goroutine count, GOMAXPROCS, per-goroutine operation lists, barrier shape) are generated from the seed; each runs in a fresh process built with -race from the current tree so first-use initialisation really races; results are compared with a sequential execution.",
          "Explores schedules only as far as the Go scheduler varies them; the happens-before race detector does not need the bad interleaving to occur, only both accesses.", "4/C11"),
  "C12": ("exploration", "table/grid/rapid white-point pairs and triples against an independent float64 Bradford implementation with conditioning-aware tolerances",
@@ -43,23 +43,23 @@ P = {
          "White points restricted to positive Bradford cone responses (reported).", "4/C12"),
  "C13": ("exploration", "lattice + rapid XYZ/Lab points, junction sweeps of consecutive floats, against the float64 CIE 1976 definition",
          "Definition agreement within 1e-3, white -> (100,0,0), neutrals, monotone L, continuity at the junction, inverse and round trip within 1e-5, finiteness.",
-         "Whites >= 0.5 per component so the stated tolerances are satisfiable in float32 (see DESIGN).", "4/C13"),
+         "Colour/white ratios within about [-1, 4] (small or lopsided whites get colours drawn relative to them) so the stated tolerances are satisfiable in float32 (see DESIGN).", "4/C13"),
  "C14": ("exploration", "exhaustive alpha sweeps and (channel<=alpha) pair enumeration with exactness / validity oracles",
          "All alphas through every constructor/converter; transparent pixels; premultiplied validity for all alphas x stratified channels (quick) / every pair (thorough); constructor agreement for opaque colours.",
          "Reading of 'transparent decodes to zero colour' for the non-premultiplied constructor is documented in DESIGN.", "4/C14"),
- "C15": ("exploration", "rapid images of every std type differentially against image/draw.Draw(Src)",
+ "C15": ("exploration", "rapid images of every std type (incl. planes with strides of their own, crops of large parents, repeated rows) differentially against image/draw.Draw(Src); fresh-process first-call probes per type, helper and parallelism",
          "Differential oracle: same bounds, identical Pix/Stride as draw.Draw; same instance for target type; input backing arrays unchanged.",
          "Trusts image/draw.", "4/C15"),
- "C16": ("exploration", "walking-ones over all 1024 header bits, field sweeps and rapid headers against encoding/binary at the ICC.1 offsets",
+ "C16": ("exploration", "walking-ones over all 1024 header bits, field sweeps and rapid headers against encoding/binary at the ICC.1 offsets; the same header through other readers, behind other tags, through a reused reader and past a transient error",
          "Each header bit is shown to feed exactly the field the specification assigns; version rendering over all 65,536 version byte pairs; date-time components; non-acsp rejected.",
          "Trusts the ICC.1 offset table transcribed in the harness.", "4/C16"),
- "C17": ("exploration", "rapid grammar-built ICC profiles (tag tables, layouts, desc/mluc) with a validity-predicate oracle for the description",
+ "C17": ("exploration", "rapid grammar-built ICC profiles (tag tables, layouts, desc/mluc, legal header fields) with a validity-predicate oracle for the description; predecessors (a damaged profile, the profile's twin), reused buffers and metadata values",
          "Tag counts 0-64, any layout/sharing/padding, v2 and v4 descriptions with many records and string placements; description must be a member of the allowed set.",
          "Trusts the harness ICC builder.", "4/C17"),
  "C18": ("exploration", "rapid files with large lazy pixel payloads behind an instrumented reader; byte-count bound and truncation metamorphic relation",
          "Bytes pulled from the source when Load returns <= needEnd + 64 KiB for payloads up to MiBs, under all read schedules; loading the file truncated at needEnd gives the same result.",
          "needEnd comes from the harness builders' field maps.", "4/C18"),
- "C19": ("exploration", "differential: autometa.Load vs the first succeeding specific loader on valid, damaged, truncated and polyglot inputs",
+ "C19": ("exploration", "differential: autometa.Load vs the first succeeding specific loader on valid, damaged, truncated and polyglot inputs, under read schedules, standard reader types, chained loads and a volume of > 1 GiB (thorough > 13 GiB) per process",
          "Same tuple as the first succeeding specific loader, or (nil, error); stream always replays the input.",
          "Both sides are prism code; independence comes from C05/C06 for the specific loaders.", "4/C19"),
  "C20": ("exploration", "published + rapid primaries triangles and matrices against an independent row-major float64 Gauss-Jordan algebra; singular matrices must panic",
